@@ -80,6 +80,13 @@ def node (systemKeyCount sceneKeyCount materialKeyCount subviewKeyCount : UInt32
   let passes ← count pass passCount.toNat
   pure { selector, passCount, passIndices, systemKeys, sceneKeys, materialKeys, subviewKeys, passes }
 
+/-- `count = if has_mat_param_defaults == 0x1 { (material_parameters_size as i32) >> 2i32 } else { 0 }`;
+a negative count is rejected by binrw (`usize::try_from` fails) -/
+def defaultsCountP (hasMatParamDefaults : UInt16) (materialParametersSize : UInt32) : P Nat :=
+  if hasMatParamDefaults == 1 then
+    (if materialParametersSize.toNat < 2147483648 then pure (materialParametersSize.toNat / 4) else failP)
+  else pure 0
+
 /-- `b"ShPk"` -/
 def magic : P Unit := do
   let m ← take 4
@@ -113,12 +120,7 @@ def shaderPackage (whole : Bytes) : P ShaderPackage := do
   let vertexShaders ← count (shader whole shaderDataOffset stringsOffset true) vertexShaderCount.toNat
   let pixelShaders ← count (shader whole shaderDataOffset stringsOffset false) pixelShaderCount.toNat
   let materialParameters ← count materialParameter materialParameterCount.toNat
-  -- count = if has_mat_param_defaults == 1 { (material_parameters_size as i32) >> 2 } else { 0 };
-  -- a negative count is rejected by binrw (`usize::try_from`)
-  let defaultsCount ←
-    (if hasMatParamDefaults == 1 then
-      (if materialParametersSize.toNat < 2147483648 then pure (materialParametersSize.toNat / 4) else failP)
-    else pure 0 : P Nat)
+  let defaultsCount ← defaultsCountP hasMatParamDefaults materialParametersSize
   let matParamDefaults ← count u32 defaultsCount
   let scalarParameters ← count (resourceParameter whole stringsOffset) scalarParameterCount.toNat
   let samplerParameters ← count (resourceParameter whole stringsOffset) samplerCount.toNat
